@@ -492,13 +492,26 @@ fn hash_row(row: &[Value]) -> u64 {
 
     let mut hasher = DefaultHasher::new();
     for value in row {
+        // The kind of the value is part of the hash (NULL and FALSE must differ).
         match value {
             Value::Null => 0u8.hash(&mut hasher),
-            Value::Bool(b) => b.hash(&mut hasher),
-            Value::Int64(i) => i.hash(&mut hasher),
-            Value::Float64(f) => f.to_bits().hash(&mut hasher),
-            Value::String(s) => s.hash(&mut hasher),
-            _ => 0u8.hash(&mut hasher),
+            Value::Bool(b) => {
+                1u8.hash(&mut hasher);
+                b.hash(&mut hasher);
+            }
+            Value::Int64(i) => {
+                2u8.hash(&mut hasher);
+                i.hash(&mut hasher);
+            }
+            Value::Float64(f) => {
+                3u8.hash(&mut hasher);
+                f.to_bits().hash(&mut hasher);
+            }
+            Value::String(s) => {
+                4u8.hash(&mut hasher);
+                s.hash(&mut hasher);
+            }
+            _ => 9u8.hash(&mut hasher),
         }
     }
     hasher.finish()
